@@ -1,8 +1,11 @@
 """C10 — Similarity and coupling estimates equal reference statistics.
 
 proof  : lean/Pyunicorn/Properties/C10.lean (lag bookkeeping, first-strict-|max| rule,
-         symmetrize_by_absmax, histogram index walks, mirrored MI matrix, signed-square
-         Pearson: symmetry / bound / affine invariance / relabelling, ranks)
+         symmetrize_by_absmax, histogram index walks, mirrored / unmirrored MI matrices,
+         signed-square Pearson: symmetry / bound / affine invariance / relabelling, ranks and
+         their sum, quantile symbols, compiled == pure-Python windows, partial covariances of
+         the Gaussian estimators, normalised inverse; slice arithmetic regenerated from the
+         source by translate/gen_arith.py (arith_C10.json))
 tie    : exact correspondence of the Lean model with the compiled kernels at the kernel
          boundary on dyadic / small-integer inputs (rationals, integers, counts), and a
          tolerance correspondence (float32) with CouplingAnalysis.cross_correlation
@@ -304,7 +307,11 @@ def run(ctx):
         "for _cross_correlation_max/_all, _symmetrize_by_absmax, climate mutual_information, "
         "_test_pearson_correlation, _test_mutual_information, _quantile_bin_array, bincount_hist, "
         "rank_time_series; data level: T in 3..600, N in 2..6 (also N > T), tau_max 0..5, integer, "
-        "white, AR data with lagged / constant / duplicated / anti-correlated series; distinct = "
+        "white, AR data with lagged / constant / duplicated / anti-correlated series; round 2: pure-Python "
+        "_calculate_cc on small-integer arrays, integer data T 12..30 for the Gaussian estimators (past 1..2, "
+        "ity/mit), partial correlation N 2..4, tau_max up to 12, bins up to 10, float32 caller arrays, "
+        "power-of-two affine images 2^(+-20), 2^(+-40), 8-call histories on one object, T up to 90000 for the "
+        "binned estimator; distinct = "
         "distinct (suite, shape, data, parameters); non-trivial = at least two non-constant series")
     ctx.trusted = common.DEFAULT_TRUSTED + [
         "log, sqrt, digamma, numpy.corrcoef, numpy.linalg.inv/pinv, scipy.linalg.qr are library "
@@ -316,8 +323,8 @@ def run(ctx):
 
     import time
     stages = ctx.extra.setdefault("stage_seconds", {"proofs": round(time.time() - ctx.t0, 1)})
-    for fn in (kernel_level, data_level_model, oracle_coupling, oracle_long_lags, oracle_periodic, oracle_knn, oracle_pure_python,
-               oracle_climate, oracle_surrogates):
+    for fn in (kernel_level, data_level_model, model_round2, oracle_coupling, oracle_wide, oracle_long_lags,
+               oracle_periodic, oracle_knn, oracle_pure_python, oracle_climate, oracle_surrogates):
         t0 = time.time()
         fn(ctx, rng, nprng, quick)
         stages[fn.__name__] = round(time.time() - t0, 1)
@@ -410,9 +417,11 @@ def kernel_level(ctx, rng, nprng, quick):
         spec_mi(ctx, "climate.mutual_information", an, an, lo, lo + span, nb, mi, mirror=True)
     for N in range(1, 6):
         cor.add(f"mimap {N}", lambda m, N=N: mimaps.__setitem__(N, dec_ints(m)))
+        cor.add(f"tmimap {N}", lambda m, N=N: tmimaps.__setitem__(N, dec_ints(m)))
     # (mimap answers are consumed by cmp_mihist on the second pass below)
 
     # ---- Surrogates test kernels ----
+    tmimaps = {}
     for c in range(120 if quick else 1200):
         N = rng.choice([1, 2, 3, 4])
         n = rng.choice([1, 2, 3, 5, 8, 13])
@@ -447,7 +456,7 @@ def kernel_level(ctx, rng, nprng, quick):
         req = f"tmi {N} {n} {nb} {enc_rat(Fraction(1, span))} {lo} " \
               f"{enc_rats(map(Fraction, Od.reshape(-1).tolist()))} " \
               f"{enc_rats(map(Fraction, Sd.reshape(-1).tolist()))}"
-        cor.add(req, cmp_tmi(mi, N, n, nb))
+        cor.add(req, cmp_tmi(mi, N, n, nb, tmimaps))
         ctx.case(("tmi", N, n, nb, Od.tobytes().hex(), Sd.tobytes().hex()), N >= 2 and n >= 2)
         ctx.count("kernel:test_mutual_information")
         spec_mi(ctx, "_test_mutual_information", Od, Sd, lo, lo + span, nb, mi, mirror=False)
@@ -508,8 +517,9 @@ def kernel_level(ctx, rng, nprng, quick):
     bad = cor.run()
     # second pass for the mirrored MI matrix layout (needs the mimap answers)
     msgs = [m for m in (f() for f in getattr(cmp_mihist, "deferred", [])) if m]
-    ctx.obligation(f"correspondence: MI from the model's counts in the model's mirrored layout == "
-                   f"climate mutual_information ({len(cmp_mihist.deferred)} matrices)", "correspondence",
+    ctx.obligation(f"correspondence: MI from the model's counts in the model's layouts (mirrored miFlat / "
+                   f"unmirrored tmiFlat) == climate mutual_information, _test_mutual_information "
+                   f"({len(cmp_mihist.deferred)} matrices)", "correspondence",
                    not msgs, "\n".join(msgs[:3]))
     cmp_mihist.deferred = []
     return bad
@@ -611,20 +621,30 @@ def cmp_mihist(mi, N, n, nb, mimaps):
 cmp_mihist.deferred = []
 
 
-def cmp_tmi(mi, N, n, nb):
+def cmp_tmi(mi, N, n, nb, tmimaps):
     def compare(m):
         parts = m.split("|")
         ha, hb = dec_ints(parts[0]), dec_ints(parts[1])
-        exp = np.zeros((N, N))
+        vals = {}
         p = 2
         for i in range(N):
             for j in range(N):
                 if i != j:
-                    exp[i, j] = mi_from_counts(dec_ints(parts[p]), ha[i * nb:(i + 1) * nb],
-                                               hb[j * nb:(j + 1) * nb], n)
+                    vals[(i, j)] = mi_from_counts(dec_ints(parts[p]), ha[i * nb:(i + 1) * nb],
+                                                  hb[j * nb:(j + 1) * nb], n)
                     p += 1
-        if not close(mi, exp, 2e-5):
-            return f"MI from model counts {exp.tolist()} != impl {np.asarray(mi).tolist()}"
+
+        def layout():
+            mp = tmimaps.get(N)
+            exp = np.zeros(N * N)
+            for cell, code in enumerate(mp):
+                if code:
+                    exp[cell] = vals[((code - 1) // N, (code - 1) % N)]
+            if not close(np.asarray(mi, dtype=float).reshape(-1), exp, 2e-5):
+                return (f"MI from the model's counts in the model's (unmirrored) layout {exp.tolist()} != "
+                        f"impl {np.asarray(mi).reshape(-1).tolist()} (N={N}, n={n}, n_bins={nb})")
+            return None
+        cmp_mihist.deferred.append(layout)
         return None
     return compare
 
@@ -700,6 +720,407 @@ def data_level_model(ctx, rng, nprng, quick):
                 return None
             cor.add(f"simsq {kind} {T} {N} {flat_series_major(d)}", compare)
     return cor.run()
+
+
+# --------------------------------------------------------------------------
+# round 2: pure-Python class, Gaussian estimators, partial correlation against the model
+# --------------------------------------------------------------------------
+
+def model_round2(ctx, rng, nprng, quick):
+    from pyunicorn.funcnet import CouplingAnalysis
+    from pyunicorn.funcnet.coupling_analysis_pure_python import CouplingAnalysisPurePython
+    from pyunicorn.climate import PartialCorrelationClimateNetwork
+    cor = Cor(ctx, "Lean Coupling2 model == pure-Python _calculate_cc (exact) and pure-Python / Gaussian MI / "
+                   "Gaussian information transfer / partial-correlation estimators (tol 2e-5)")
+
+    # ---- (1) CouplingAnalysisPurePython._calculate_cc at its boundary: exact -------------
+    for c in range(150 if quick else 1500):
+        N = rng.choice([1, 2, 2, 3])
+        tm = rng.choice([0, 1, 1, 2, 3])
+        cr = rng.choice([1, 2, 3, 4, 6, 8])
+        hi = rng.choice([1, 1, 2, 3])
+        A = nprng.randint(-hi, hi + 1, size=(2 * tm + 1, N, cr)).astype(np.float32)
+        if rng.random() < 0.3 and tm >= 1:
+            A[0] = -A[2 * tm] if rng.random() < 0.5 else A[2 * tm]      # exact |tie| between t = 0 and 2 tau_max
+        if c == 0:
+            A[:] = 0
+        with quiet():
+            pp = CouplingAnalysisPurePython(np.zeros((2 * tm + 3, N)), silence_level=3)
+            r_all = pp._calculate_cc(A.copy(), tau_max=tm, lag_mode="all")
+            r_max = pp._calculate_cc(A.copy(), tau_max=tm, lag_mode="max")
+            r_sum = pp._calculate_cc(A.copy(), tau_max=tm, lag_mode="sum")
+        ctx.case(("pcc", N, tm, cr, A.tobytes().hex()), N >= 2 and bool(A.any()),
+                 {"kernel": "CouplingAnalysisPurePython._calculate_cc", "array": lst(A), "tau_max": tm}
+                 if N == 2 and cr <= 2 and tm <= 1 else None)
+        ctx.count("kernel:pure_python_calculate_cc")
+        ctx.count(f"kernel:pcc:tau_max={tm}")
+
+        def compare(m, r_all=r_all, r_max=r_max, r_sum=r_sum, cr=cr):
+            parts = m.split("|")
+            impl = [enc_q(r_all.reshape(-1), cr), enc_q(r_max[0].reshape(-1), cr),
+                    enc_ints(np.round(r_max[1]).reshape(-1))]
+            for k, nm in enumerate(("all", "max value", "max lag")):
+                if parts[k] != impl[k]:
+                    return f"{nm}: model={parts[k][:200]} impl={impl[k][:200]}"
+            if np.any(r_max[1] != np.round(r_max[1])):
+                return f"non-integral lag {r_max[1].tolist()}"
+            for k, nm in ((3, 0), (4, 1)):
+                mod = np.array([float(x) for x in dec_rats(parts[k])])
+                if not close(r_sum[nm].reshape(-1), mod, 2e-6):
+                    return f"sum[{nm}]: model={parts[k][:200]} impl={r_sum[nm].reshape(-1).tolist()}"
+            return None
+        cor.add(f"pcc {N} {tm} {cr} {enc_ints(A.reshape(-1))}", compare)
+        # direct specification in Fraction arithmetic (independent of the model)
+        for i in range(N):
+            for j in range(N):
+                f = [sum(Fraction(int(a)) * Fraction(int(b)) for a, b in zip(A[tm, i], A[t, j])) / cr
+                     for t in range(2 * tm + 1)]
+                top = max(abs(x) for x in f)
+                first = min(t for t in range(2 * tm + 1) if abs(f[t]) == top) if top > 0 else 0
+                exp_sum = (float(sum(abs(x) for x in f[tm:])), float(sum(abs(x) for x in f[:tm + 1])))
+                if int(round(float(r_max[1][i, j]))) != first - tm \
+                        or Fraction(float(r_max[0][i, j])).limit_denominator(cr) != top \
+                        or abs(r_sum[0][i, j] - exp_sum[0]) > 1e-5 or abs(r_sum[1][i, j] - exp_sum[1]) > 1e-5:
+                    ctx.fail({"kind": "pure_python", "method": "_calculate_cc", "check": "modes_spec"},
+                             "pure-Python 'max' is not (max |c_t|, first window attaining it - tau_max) or 'sum' "
+                             "is not the sums of |c_t| over t >= tau_max / t <= tau_max",
+                             {"array": lst(A), "tau_max": tm, "i": i, "j": j, "lagfunc": [str(x) for x in f],
+                              "expected_max": [str(top), first - tm], "expected_sum": list(exp_sum),
+                              "observed_max": [float(r_max[0][i, j]), float(r_max[1][i, j])],
+                              "observed_sum": [float(r_sum[0][i, j]), float(r_sum[1][i, j])]})
+
+    # ---- (2) pure-Python cross_correlation from the data: pureXcorrSq ----------------------
+    for c in range(60 if quick else 500):
+        T = rng.choice([5, 6, 8, 12, 16, 24])
+        N = rng.choice([2, 2, 3])
+        tm = rng.randrange(0, min(4, (T - 3) // 2 + 1))
+        d, feats = gen_data(rng, nprng, T, N, "int")
+        with quiet():
+            got = CouplingAnalysisPurePython(d.copy(), silence_level=3).cross_correlation(
+                tau_max=tm, lag_mode="all")
+        ctx.case(("pxcorr", T, N, tm, d.tobytes().hex()), True)
+        ctx.count("data:pure_xcorr")
+
+        def compare(m, got=got, N=N, tm=tm):
+            sq = np.array([float(x) for x in dec_rats(m)]).reshape(2 * tm + 1, N, N)
+            if not np.all(np.abs(ssq(got) - sq) <= 2e-5):
+                k = np.unravel_index(np.argmax(np.abs(ssq(got) - sq)), sq.shape)
+                return f"pure-Python [t,i,j]={k}: impl {got[k]} (signed square {ssq(got[k])}) model {sq[k]}"
+            return None
+        cor.add(f"pxcorr {T} {N} {tm} {flat_series_major(d)}", compare)
+
+    # ---- (3) Gaussian MI and Gaussian information transfer ---------------------------------
+    for c in range(40 if quick else 300):
+        T = rng.choice([12, 16, 20, 30])
+        N = rng.choice([2, 2, 3])
+        tm = rng.randrange(0, 3)
+        past = rng.choice([1, 1, 2])
+        cond = rng.choice(["ity", "mit"])
+        d = nprng.randint(-4, 5, size=(T, N)).astype(float)
+        if rng.random() < 0.4:
+            lag = rng.randrange(0, 3)
+            d[lag:, 1] = d[:T - lag, 0] + nprng.randint(-1, 2, size=T - lag)
+        ca = CouplingAnalysis(d.copy(), silence_level=3)
+        try:
+            with quiet():
+                it_all = ca.information_transfer(tau_max=tm, estimator="gauss", past=past, cond_mode=cond,
+                                                 lag_mode="all")
+                it_mv, it_ml = ca.information_transfer(tau_max=tm, estimator="gauss", past=past,
+                                                       cond_mode=cond, lag_mode="max")
+                mi_all = ca.mutual_information(tau_max=tm, estimator="gauss", lag_mode="all")
+        except ValueError:
+            ctx.count("data:gauss:constant_window_rejected")
+            continue
+        ctx.case(("itsq", T, N, tm, past, cond, d.tobytes().hex()), True)
+        ctx.count("data:it_gauss:" + cond)
+        ctx.count("data:mi_gauss")
+
+        def r2(v):
+            with np.errstate(all="ignore"):
+                return 1.0 - np.exp(-2.0 * np.asarray(v, dtype=float))
+
+        def cmp_it(m, it_all=it_all, it_mv=it_mv, it_ml=it_ml, N=N, tm=tm):
+            sqs, flags, lags = m.split(";")
+            sq = np.abs(np.array([float(x) for x in dec_rats(sqs)])).reshape(N, N, tm + 1)
+            reg = np.array(dec_ints(flags)).reshape(N, N, tm + 1) == 1
+            lagm = np.array(dec_ints(lags)).reshape(N, N)
+            ok = reg & (sq < 0.99) & ~np.eye(N, dtype=bool)[:, :, None]
+            dif = np.where(ok, np.abs(r2(it_all) - sq), 0.0)
+            if dif.max() > 2e-5:
+                k = np.unravel_index(np.argmax(dif), sq.shape)
+                return f"information_transfer 'all' {k}: impl {it_all[k]} (r^2 {r2(it_all[k])}) model r^2 {sq[k]}"
+            for i in range(N):
+                for j in range(N):
+                    if i == j or not np.all(ok[i, j]):
+                        continue
+                    a = sq[i, j]
+                    top = a.max()
+                    cands = [l for l in range(tm + 1) if a[l] >= top - 1e-4]
+                    if top > 1e-4 and len(cands) == 1:
+                        if int(it_ml[i, j]) != int(lagm[i, j]) or abs(r2(it_mv[i, j]) - top) > 2e-5:
+                            return (f"information_transfer 'max' ({i},{j}): impl ({it_mv[i, j]}, {it_ml[i, j]}) "
+                                    f"model lag {lagm[i, j]} r^2 {top}")
+            return None
+        cor.add(f"itsq {T} {N} {tm} {past} {1 if cond == 'mit' else 0} {flat_series_major(d)}", cmp_it)
+
+        def cmp_mi(m, mi_all=mi_all, N=N, tm=tm):
+            sq = np.abs(np.array([float(x) for x in dec_rats(m)])).reshape(N, N, tm + 1)
+            ok = sq < 0.99
+            dif = np.where(ok, np.abs(r2(mi_all) - sq), 0.0)
+            if dif.max() > 2e-5:
+                k = np.unravel_index(np.argmax(dif), sq.shape)
+                return f"gauss MI {k}: impl {mi_all[k]} (r^2 {r2(mi_all[k])}) model r^2 {sq[k]}"
+            return None
+        cor.add(f"xcorr {T} {N} {tm} {flat_series_major(d)}", cmp_mi)
+
+    # ---- (4) PartialCorrelationClimateNetwork ------------------------------------------------
+    with quiet():
+        net = make_climate(PartialCorrelationClimateNetwork, nprng.randn(10, 3))[0]
+    schur = []
+    for c in range(60 if quick else 500):
+        N = rng.choice([2, 3, 3, 4])
+        T = rng.randrange(N + 3, 24)
+        d = nprng.randint(-4, 5, size=(T, N)).astype(float)
+        if rng.random() < 0.3:
+            d[:, 1] = d[:, 0] + nprng.randint(-1, 2, size=T)
+        for i in range(N):
+            if np.ptp(d[:, i]) == 0:
+                d[rng.randrange(T), i] += 1.0
+        if np.linalg.cond(np.corrcoef(d.T)) > 1e3:
+            ctx.count("data:partial:ill_conditioned_skipped")
+            continue
+        with quiet():
+            got = np.asarray(net.calculate_similarity_measure(d - d.mean(axis=0)), dtype=float)
+        ctx.case(("pcorr", T, N, d.tobytes().hex()), True)
+        ctx.count("data:partial_correlation")
+
+        def compare(m, got=got, N=N):
+            if m == "singular":
+                return "model: covariance matrix singular, but numpy reports a small condition number"
+            cert, ninv, pc, piv = m.split("|")
+            if cert != "1":
+                return "Gauss-Jordan result is not the inverse (C·P != I exactly)"
+            sq = np.array([float(x) for x in dec_rats(ninv)]).reshape(N, N)
+            if not np.all(np.abs(ssq(got) - sq) <= 2e-5):
+                return f"impl {got.tolist()} (signed squares {ssq(got).tolist()}) model {sq.tolist()}"
+            a, b, f = ninv.split(","), pc.split(","), dec_ints(piv)
+            for k in range(N * N):
+                if k // N != k % N and f[k] == 1:
+                    schur.append(a[k] == b[k])
+            return None
+        cor.add(f"pcorr {T} {N} {flat_series_major(d)}", compare)
+    bad = cor.run()
+    ctx.obligation(f"model consistency: -P_ij/sqrt(P_ii P_jj) of the exact inverse == correlation of the residuals "
+                   f"after projecting out all other series (exact rationals, {len(schur)} entries)",
+                   "correspondence", all(schur) and (len(schur) > 0), "normInvSq != parCorrSqG on some entry")
+    return bad
+
+
+# --------------------------------------------------------------------------
+# oracle, wide: large samples, float32 caller arrays, power-of-two affine images, call histories
+# on one object, wide tau_max / bins, non-default paths of the pure-Python class
+# --------------------------------------------------------------------------
+
+def oracle_wide(ctx, rng, nprng, quick):
+    from pyunicorn.funcnet import CouplingAnalysis
+    from pyunicorn.funcnet.coupling_analysis_pure_python import CouplingAnalysisPurePython
+
+    def fin(a):
+        a = np.asarray(a, dtype=float)
+        return np.where(np.isfinite(a), a, 0.0)
+
+    # ---- many samples per histogram cell (binned MI) -------------------------------------
+    for c in range(1 if quick else 3):
+        T = rng.randrange(66000, 90000)
+        bins = 2
+        d = nprng.randn(T, 2)
+        d[:, 1] = d[:, 0] + rng.choice([0.1, 0.5]) * nprng.randn(T)
+        with quiet():
+            got = CouplingAnalysis(d.copy(), silence_level=3).mutual_information(
+                tau_max=0, estimator="binning", bins=bins, lag_mode="all")[:, :, 0]
+        exp = np.zeros((2, 2))
+        for i in range(2):
+            for j in range(2):
+                exp[i, j] = ref_hist_mi(ref_quantile_symbols(d[:, i], bins), ref_quantile_symbols(d[:, j], bins), bins)
+        ctx.case(("bigT", T, bins, d[:8].tobytes().hex()), True)
+        ctx.count("oracle:wide:binning_T>65535")
+        if not close(got, exp, 2 * TOL):
+            ctx.fail({"kind": "coupling", "method": "mutual_information", "estimator": "binning",
+                      "check": "reference", "input_class": "more than 32767 samples in a histogram cell"},
+                     f"binned MI for T = {T}, bins = {bins}: {got.tolist()}, equal-quantile histogram MI gives {exp.tolist()}",
+                     {"T": T, "bins": bins, "data": "x0 = randn(T), x1 = x0 + noise", "expected": lst(exp),
+                      "observed": lst(got)})
+
+    for c in range(40 if quick else 300):
+        T = rng.randrange(8, 60)
+        N = rng.choice([2, 3, 4])
+        tm = rng.randrange(0, min(T - 4, 12) + 1) if rng.random() < 0.5 else rng.randrange(0, 4)
+        d = nprng.randint(-6, 7, size=(T, N)).astype(float)
+        if rng.random() < 0.5:
+            lag = rng.randrange(0, min(tm, T - 3) + 1)
+            d[lag:, 1] = rng.choice([1.0, -1.0]) * d[:T - lag, 0] + nprng.randint(-1, 2, size=T - lag)
+        ctx.case(("wide", T, N, tm, d.tobytes().hex()), True)
+        ctx.count("oracle:wide:tau_max=%s" % ("0-3" if tm <= 3 else "4-12"))
+        P = {"T": T, "N": N, "tau_max": tm, "data": lst(d)}
+        with quiet():
+            ca = CouplingAnalysis(d.copy(), silence_level=3)
+            allv = ca.cross_correlation(tau_max=tm, lag_mode="all")
+            mv, ml = ca.cross_correlation(tau_max=tm, lag_mode="max")
+        ref = ref_xcorr(d, tm)
+        if not close(allv, ref):
+            k = np.unravel_index(np.nanargmax(np.abs(allv - ref)), ref.shape)
+            ctx.fail({"kind": "coupling", "method": "cross_correlation", "check": "reference", "lag_mode": "all"},
+                     f"cross_correlation(lag_mode='all')[{k}] = {allv[k]}, shifted-series Pearson gives {ref[k]} "
+                     f"(tau_max = {tm})", dict(P, index=list(map(int, k))))
+        check_max_vs_all(ctx, "cross_correlation", {"T": T, "N": N, "tau_max": tm}, d, allv, mv, ml,
+                         use_abs=True, diag_free=True)
+
+        # ---- float32 caller arrays: same results as float64 arrays holding the same numbers ----
+        d32 = (d / 8.0 + nprng.randn(T, N)).astype(np.float32)
+        bins = rng.choice([2, 3, 5, 8, 10])
+        res = {}
+        for nm, arr in (("f32", d32.copy()), ("f64", d32.astype(np.float64))):
+            try:
+                with quiet():
+                    cx = CouplingAnalysis(arr, silence_level=3)
+                    res[nm] = [cx.cross_correlation(tau_max=tm, lag_mode="all"),
+                               cx.cross_correlation(tau_max=tm, lag_mode="max")[0],
+                               fin(cx.mutual_information(tau_max=tm, estimator="gauss", lag_mode="all")),
+                               cx.mutual_information(tau_max=tm, estimator="binning", bins=bins, lag_mode="all")]
+                    if T - tm - 1 >= 10:
+                        res[nm].append(fin(cx.information_transfer(tau_max=tm, estimator="gauss", lag_mode="all")))
+            except Exception as e:  # noqa
+                ctx.fail({"kind": "coupling", "check": "float_width", "error": type(e).__name__},
+                         f"CouplingAnalysis on a {nm} array raised {type(e).__name__}: {e}",
+                         dict(P, data32=lst(d32), bins=bins))
+        ctx.count("oracle:wide:float32_caller_array")
+        if len(res) == 2:
+            names = ["cross_correlation all", "cross_correlation max", "gauss MI", "binned MI", "gauss IT"]
+            for nm, a, b in zip(names, res["f32"], res["f64"]):
+                well = (np.abs(b) < 3.0)
+                if not close(np.where(well, a, 0), np.where(well, b, 0), 1e-4 if "gauss" in nm else 2 * TOL):
+                    ctx.fail({"kind": "coupling", "check": "float_width", "method": nm},
+                             f"{nm}: float32 caller array gives a different result than the same numbers as float64",
+                             dict(P, data32=lst(d32), bins=bins))
+
+        # ---- exact power-of-two affine images --------------------------------------------------
+        ks = [rng.choice([-40, -20, 20, 40]) for _ in range(N)]
+        sg = np.array([rng.choice([1.0, -1.0]) for _ in range(N)])
+        a = sg * np.array([2.0 ** k for k in ks])
+        b = np.array([float(rng.randrange(-3, 4)) * 2.0 ** k for k in ks])
+        d2 = d * a + b                      # exact in float64 (small integers times powers of two)
+        ctx.count("oracle:wide:pow2_affine")
+        with quiet():
+            c2 = CouplingAnalysis(d2.copy(), silence_level=3)
+            allv2 = c2.cross_correlation(tau_max=tm, lag_mode="all")
+        sgn = np.sign(np.outer(a, a))[:, :, None]
+        if not close(allv2, allv * sgn, 2 * TOL):
+            ctx.fail({"kind": "coupling", "method": "cross_correlation", "check": "affine",
+                      "input_class": "power-of-two scale"},
+                     "cross correlation changes under x_i -> ±2^k_i x_i + b_i",
+                     dict(P, a=lst(a), b=lst(b)))
+        apos = np.abs(a)
+        with quiet():
+            c3 = CouplingAnalysis((d * apos + b).copy(), silence_level=3)
+            bm = ca.mutual_information(tau_max=tm, estimator="binning", bins=bins, lag_mode="all")
+            bm3 = c3.mutual_information(tau_max=tm, estimator="binning", bins=bins, lag_mode="all")
+        if not np.array_equal(bm, bm3):
+            ctx.fail({"kind": "coupling", "method": "mutual_information", "estimator": "binning",
+                      "check": "affine", "input_class": "power-of-two scale"},
+                     "binned MI changes under a strictly increasing affine map of each series",
+                     dict(P, a=lst(apos), b=lst(b), bins=bins))
+        try:
+            with quiet():
+                g1 = fin(ca.mutual_information(tau_max=tm, estimator="gauss", lag_mode="all"))
+                g2 = fin(c2.mutual_information(tau_max=tm, estimator="gauss", lag_mode="all"))
+            well = np.abs(g1) < 3.0
+            if not close(np.where(well, g2, 0), np.where(well, g1, 0), 1e-4):
+                ctx.fail({"kind": "coupling", "method": "mutual_information", "estimator": "gauss",
+                          "check": "affine", "input_class": "power-of-two scale"},
+                         "gauss MI changes under x_i -> ±2^k_i x_i + b_i", dict(P, a=lst(a), b=lst(b)))
+        except ValueError:
+            pass
+        if 2 * min(tm, 3) + 3 <= T:
+            tp = min(tm, 3)
+            with quiet():
+                p1 = CouplingAnalysisPurePython(d.copy(), silence_level=3).cross_correlation(tau_max=tp)
+                p2 = CouplingAnalysisPurePython(d2.copy(), silence_level=3).cross_correlation(tau_max=tp)
+            if not close(p2, p1 * np.sign(np.outer(a, a))[None, :, :], 2 * TOL):
+                ctx.fail({"kind": "pure_python", "method": "cross_correlation", "check": "affine",
+                          "input_class": "power-of-two scale"},
+                         "pure-Python cross correlation changes under x_i -> ±2^k_i x_i + b_i",
+                         dict(P, a=lst(a), b=lst(b), tau_max_pure=tp))
+
+        # ---- call history on one object: every repeated call returns the first answer ----------
+        held = d.copy()
+        obj = CouplingAnalysis(held, silence_level=3)
+        ops = [("cross_correlation", dict(tau_max=tm, lag_mode="all")),
+               ("cross_correlation", dict(tau_max=tm, lag_mode="max")),
+               ("cross_correlation", dict(tau_max=min(tm, 1), lag_mode="max")),
+               ("mutual_information", dict(tau_max=tm, estimator="binning", bins=bins, lag_mode="all")),
+               ("mutual_information", dict(tau_max=min(tm, 1), estimator="binning", bins=2, lag_mode="max")),
+               ("mutual_information", dict(tau_max=tm, estimator="gauss", lag_mode="max")),
+               ("information_transfer", dict(tau_max=min(tm, 2), estimator="gauss", lag_mode="all"))]
+        first, hist = {}, []
+        for step in range(8):
+            k = rng.randrange(len(ops))
+            nm, kw = ops[k]
+            if nm == "information_transfer" and T - kw["tau_max"] - 1 < 10:
+                continue
+            hist.append(k)
+            try:
+                with quiet():
+                    r = getattr(obj, nm)(**kw)
+            except ValueError:
+                r = "ValueError"
+            r = r if isinstance(r, (tuple, str)) else (r,)
+            if k not in first:
+                first[k] = r
+            elif isinstance(r, str) != isinstance(first[k], str) or (
+                    not isinstance(r, str) and not all(np.array_equal(x, y, equal_nan=True)
+                                                       for x, y in zip(r, first[k]))):
+                ctx.fail({"kind": "coupling", "method": nm, "check": "history"},
+                         f"{nm}({kw}) returns a different answer after other estimators ran on the same object",
+                         dict(P, history=[list(ops[h]) for h in hist], bins=bins))
+                break
+        ctx.count("oracle:wide:history")
+        if not (np.array_equal(held, d) and np.array_equal(np.asarray(obj.data, dtype=float), d)):
+            ctx.fail({"kind": "coupling", "check": "history", "method": "data"},
+                     "the data held by the object (or the caller's array) changed during the estimator calls",
+                     dict(P, history=[list(ops[h]) for h in hist]))
+        # symmetrize_by_absmax through the public wrapper with caller dtypes (float64 / int64)
+        S = nprng.randint(-8, 9, size=(N, N)) / 8.0
+        L = nprng.randint(-5, 6, size=(N, N)).astype(np.int64)
+        with quiet():
+            rs, rl = obj.symmetrize_by_absmax(S.copy(), L.copy())
+        spec_symabs(ctx, S.astype(np.float32), L.astype(np.int8), np.asarray(rs), np.asarray(rl))
+
+    # ---- pure-Python class: only_tri, 3-d input ------------------------------------------------
+    for c in range(20 if quick else 150):
+        T = rng.randrange(7, 30)
+        na, nb_ = rng.choice([(1, 2), (2, 2), (1, 3)])
+        N = na * nb_
+        tm = rng.randrange(0, min(3, (T - 3) // 2) + 1)
+        d = nprng.randn(T, N)
+        ctx.case(("pp2", T, N, tm, d.tobytes().hex()), True)
+        ctx.count("oracle:wide:pure_python_only_tri/3d")
+        with quiet():
+            full = CouplingAnalysisPurePython(d.copy(), silence_level=3).cross_correlation(tau_max=tm)
+            tri = CouplingAnalysisPurePython(d.copy(), only_tri=True, silence_level=3).cross_correlation(tau_max=tm)
+            d3 = CouplingAnalysisPurePython(d.reshape(T, na, nb_).copy(), silence_level=3).cross_correlation(tau_max=tm)
+        exp = np.zeros_like(full)
+        for i in range(N):
+            for j in range(i + 1, N):
+                exp[:, i, j] = full[:, i, j]
+                exp[:, j, i] = full[::-1, i, j]
+        if not close(tri, exp, 1e-6):
+            ctx.fail({"kind": "pure_python", "method": "cross_correlation", "check": "only_tri"},
+                     "only_tri=True: the upper triangle differs from the full computation or the lower "
+                     "triangle is not its lag-reversed mirror", {"data": lst(d), "tau_max": tm})
+        if not np.array_equal(d3, full):
+            ctx.fail({"kind": "pure_python", "method": "cross_correlation", "check": "3d_input"},
+                     "a (time, lat, lon) array gives a different result than its (time, node) reshape",
+                     {"data": lst(d), "shape": [T, na, nb_], "tau_max": tm})
 
 
 # --------------------------------------------------------------------------
@@ -1076,6 +1497,26 @@ def oracle_knn(ctx, rng, nprng, quick):
             ctx.fail({"kind": "kernel", "kernel": "_get_nearest_neighbors"},
                      "neighbour counts differ from the brute-force KSG counts",
                      {"array": lst(a32), "k": k, "expected": [ex, ey, ez],
+                      "observed": [lst(kx), lst(ky), lst(kz)]})
+    # the public wrapper without standardisation, multi-dimensional X / Y / Z subspaces
+    # (the 1e-10 tie-breaking noise is below half an ulp of these float32 values)
+    for c in range(40 if quick else 300):
+        T = rng.randrange(6, 40)
+        dx, dy, dz = rng.choice([1, 2]), rng.choice([1, 2]), rng.choice([0, 1, 2])
+        dim = dx + dy + dz
+        k = rng.randrange(1, max(2, T // 2))
+        arr = np.array([nprng.permutation(4 * T)[:T] / 8.0 + nprng.permutation(T) / 4096.0
+                        for _ in range(dim)])
+        xyz = np.array([0] * dx + [1] * dy + [2] * dz)
+        np.random.seed(rng.randrange(2 ** 31))
+        kx, ky, kz = CouplingAnalysis.get_nearest_neighbors(arr.copy(), xyz, k, standardize=False)
+        ex, ey, ez = ref_knn_counts(arr.astype(np.float32).astype(float), dx, dy, k)
+        ctx.case(("knnpub", T, dx, dy, dz, k, arr.tobytes().hex()), True)
+        ctx.count(f"oracle:knn:public:dims={dx},{dy},{dz}")
+        if list(map(int, kx)) != ex or list(map(int, ky)) != ey or list(map(int, kz)) != ez:
+            ctx.fail({"kind": "coupling", "method": "get_nearest_neighbors", "check": "reference"},
+                     "get_nearest_neighbors(standardize=False) differs from the brute-force KSG counts",
+                     {"array": lst(arr), "xyz": lst(xyz), "k": k, "expected": [ex, ey, ez],
                       "observed": [lst(kx), lst(ky), lst(kz)]})
     # the estimator on top of the kernel: psi(k) + mean(psi(k_z) - psi(k_xz) - psi(k_yz))
     for c in range(10 if quick else 60):
